@@ -41,7 +41,8 @@ RULE = ("valid pieces (1-3 tracks, 2-6 bars, signature changes, empty bars) spli
         "by random partitions (thorough: all 2^(bars-1) partitions up to 6 bars) x sampled configurations (a quarter with custom / unsorted step "
         "lists, a step above ppqn, three-digit steps, repeated entries); the chunked stream is compared with the single call on the re-joined bars "
         "AND, when no note crosses a bar line, with the single call on the GENERATED tracks and with the piece's own signatures (plain data): notes, "
-        "bar ends, in-force bar-length timeline of the returned signature events; "
+        "bar ends, in-force bar-length timeline of the returned signature events; pieces in and around D19's class (short bars, notes struck on the "
+        "bar line that last exactly the bar, part of it or two bars, signature changes after such bars), cut at random bar lines; "
         "non-trivial = at least 2 chunks and at least 2 notes")
 ASSUMPTIONS = ["the glue from real bars to whole-bar chunks (C03f.extract_wholebars_nozero) assumes tracks on one channel each — a need of the proof only: mixed-channel tracks were replayed on the implementation and evaluated in the model without a failure",
                "models: SCoda.tokeniseCore with explicit carried state, SCoda.splitBars, SCoda.barsToSeq; every call of every "
@@ -250,20 +251,23 @@ def setup(ctx):
 
     def kf_d19(f):
         # decided on the plain input (bars from the signatures alone), not through sequences_split_bars of the tree under test (audit round 3, K5)
-        # and by the OUTCOME: what the later calls emit lies EARLIER than in the single call, by the lengths of the bars the stalled calls
-        # did not pass (H.d19_outcome); a result that is late, or early by another amount, is not this finding
+        # and by the OUTCOME (audit round 4, B3): the chunked list of the failure IS the single call's list with every note (whole tuple: pitch,
+        # onset, duration, velocity — none lost, none invented) / bar end that lies at or after the cut of a call that returned early moved
+        # earlier by exactly the cumulative amount predicted from the plain input, and the bar ends such a call never reached left out
+        # (H.d19_outcome / H.d19_predict); a signature change of a later call moves like a note onset (clause `signatures`: it does occur on /repo —
+        # 2/8 bars with whole-bar notes followed by a change to 3/8 — though the random pieces of a quick run never reach it)
         tracks = [[tuple(m) for m in t] for t in f["input"]["tracks"]]
         if f["clause"] not in ("notes", "bar-grid", "signatures"):
             return False
         if f["oracle"] == "chunked_split":
             # chunks cut by Sequence.split, piece scaled by k (soak seed 5): the same defect — a call returns on its last event onset's bar —
-            # with the class of split chunks (a note may sound across the chunk's inner bar lines up to the cut: H.split_call_shifts) and the
-            # amounts scaled by k; found by a thorough soak, VERIF_SEED=5 (3/8, cut after a bar holding one whole-bar note, ppqn 48)
+            # with the class of split chunks (a note may sound across the chunk's inner bar lines up to the cut: H.split_call_falls) and the
+            # ticks scaled by k; found by a thorough soak, VERIF_SEED=5 (3/8, cut after a bar holding one whole-bar note, ppqn 48)
             k = f["input"]["scale"]
-            return H.d19_outcome(f["detail"], [s_ * k for s_ in H.split_call_shifts(tracks, f["input"]["cuts"])])
+            return H.d19_outcome(f["clause"], f["detail"], [(a * k, b * k) for (a, b) in H.split_call_falls(tracks, f["input"]["cuts"])], 24 * k)
         if not (f["oracle"] == "chunked" and H.stalled_chunk_plain(tracks, f["input"]["cuts"])):
             return False
-        return H.d19_outcome(f["detail"], H.d19_shifts(tracks, f["input"]["cuts"]))
+        return H.d19_outcome(f["clause"], f["detail"], H.d19_falls(tracks, f["input"]["cuts"]), grid=[e for _, e in H.bars_plain(tracks)])
     ctx.kf_predicates["D19"] = kf_d19
 
 
@@ -287,12 +291,72 @@ SIG_EXAMPLE = {"cfg": dict(num_tracks=1), "cuts": [1], "tracks": [[
     G.pm(TIMESIG, 0, None, num=3, den=4), G.pm(ON, 0, None, note=62, vel=64), G.pm(WAIT, 0, 24), G.pm(OFF, 0, None, note=62), G.pm(WAIT, 0, 48)]]}
 
 
+def gen_d19_piece(rng):
+    """pieces in and around D19's class (audit round 4, B3: the random pieces reach it a handful of times per run): short bars (2/8, 3/8, 2/4,
+    4/4, changing), one or two tracks, and in every bar mostly notes that START ON THE BAR LINE — lasting the whole bar (the call stalls), part of
+    it, or two bars — next to a few free notes; result shape of gens.gen_piece"""
+    menu = [(2, 8), (3, 8), (2, 4), (4, 4), (3, 4)]
+    n_bars = rng.randint(2, 5)
+    n_tracks = rng.choice([1, 1, 2])
+    bars, sigs, t, cur = [], [], 0, None
+    for b in range(n_bars):
+        if b == 0 or rng.random() < 0.25:
+            new = rng.choice(menu)
+            if new != cur:
+                sigs.append((t, new[0], new[1]))
+            cur = new
+        ln = 96 * cur[0] // cur[1]
+        bars.append((t, ln, cur[0], cur[1]))
+        t += ln
+    total = t
+    tracks, notes_all = [], []
+    for ti in range(n_tracks):
+        notes = []
+        for bi, (start, length, _, _) in enumerate(bars):
+            r = rng.random()
+            cand = []
+            if r < 0.45:
+                cand.append((rng.choice([60, 62, 64]), start, length))                     # a whole-bar note on the bar line
+            elif r < 0.6:
+                cand.append((rng.choice([60, 62, 64]), start, rng.choice([12, 24])))       # a short note on the bar line
+            elif r < 0.7 and bi + 1 < len(bars):
+                cand.append((rng.choice([60, 62]), start, length + bars[bi + 1][1]))      # two bars long, from the bar line
+            if rng.random() < 0.3:
+                on = start + rng.choice([6, 12, 18, 24])
+                if on < start + length:
+                    cand.append((rng.choice([65, 67]), on, rng.choice([6, 12, start + length - on])))
+            for (p, on, d) in cand:
+                if on + d <= total and not any(x[0] == p and not (on + d <= x[1] or x[1] + x[2] <= on) for x in notes):
+                    notes.append((p, on, d, rng.choice([1, 64, 127])))
+        extras = [G.pm(TIMESIG, 0, tick, num=n, den=d) for (tick, n, d) in sigs] if ti == 0 else []
+        a = G.notes_to_abs([(0, p, on, d, v) for (p, on, d, v) in notes], extras, cap=total if rng.random() < 0.5 else None)
+        tracks.append(G.abs_to_rel(a))
+        notes_all.append(sorted(notes, key=lambda x: (x[1], x[0])))
+    return {"tracks": tracks, "notes": notes_all, "bars": bars, "sigs": sigs, "total": total}
+
+
 def generate(ctx):
     rng = ctx.rng
     ctx.check("chunked", D19_EXAMPLE)
     ctx.check("chunked_split", D19_SPLIT_EXAMPLE)
     ctx.check("chunked_split", D19_SPLIT_TAIL_EXAMPLE)
     ctx.check("chunked", SIG_EXAMPLE)
+    # members and neighbours of D19's class (audit round 4, B3): pieces whose bars mostly hold notes struck on the bar line, many of them
+    # lasting exactly the bar — several calls stall, signature changes follow stalled calls, notes of one pitch are laid onto each other
+    for i in range(ctx.n(40, 800)):
+        piece = gen_d19_piece(rng)
+        nb = len(piece["bars"])
+        cuts = [c for c in range(1, nb) if rng.random() < 0.6]
+        kw = dict(num_tracks=len(piece["tracks"]), pitch_range=(55, 70), velocity_bins=rng.choice([1, 4, 16]), fuse_track=rng.random() < 0.5,
+                  running=rng.random() < 0.5)
+        ctx.case((piece["tracks"], sorted(kw.items()), cuts), len(cuts) >= 1)
+        ctx.count("bar-line-pieces")
+        nst = len(H.d19_falls(piece["tracks"], cuts))
+        if nst:
+            ctx.count("bar-line-pieces:calls-that-stall(D19 class):%s" % (nst if nst < 3 else "3+"))
+        ctx.check("chunked", {"cfg": kw, "tracks": piece["tracks"], "cuts": cuts})
+        if i % 2 == 0:
+            ctx.check("chunked_split", {"cfg": kw, "tracks": piece["tracks"], "cuts": cuts, "scale": rng.choice([1, 2])})
     prev = None
     for i in range(ctx.n(60, 1200)):
         extra = {}
